@@ -149,6 +149,7 @@ def _shape_defects_2d(pe, order, qr):
 def o1(h):
     """G: real triangle shape tables at the points of every triangle rule: partition of unity, zero gradient sum,
     nodal reproduction of every monomial of degree <= order (values and reference gradients), within 64 ulp * cond"""
+    install_case_split()
     FS, I, QR, M, S = _mods()
     h.encoded(I.compute_shapes, I.shape2d, I.vander2d, I.shape2dBubble, I.make_parent_element_2d, I.make_parent_element_2d_with_bubble,
               I.get_lobatto_nodes_1d, QR.create_quadrature_rule_on_triangle)
@@ -173,6 +174,7 @@ def o2(h):
     """G: 1-D (edge) shape tables at every Gauss rule 0..25: partition of unity, zero derivative sum, reproduction of
     x^i, i <= order; parent-element topology: vertex nodes at (1,0),(0,1),(0,0), face k runs from vertex k to k+1
     through the images of the 1-D Lobatto nodes"""
+    install_case_split()
     FS, I, QR, M, S = _mods()
     h.encoded(I.compute_shapes, I.shape1d, I.vander1d, I.make_parent_element_1d, I.make_parent_element_2d, I.make_parent_element_2d_with_bubble,
               QR.create_quadrature_rule_1D)
@@ -241,6 +243,7 @@ def o3(h):
     """G: moment exactness of the real rules: triangle sum_q w_q xi^i eta^j = i! j!/(i+j+2)! for i+j <= degree (1..10),
     1-D sum_q w_q x^i = 1/(i+1), i <= degree (0..25); positive weights, points inside the reference domain, documented
     cyclic symmetry of the triangle tables"""
+    install_case_split()
     FS, I, QR, M, S = _mods()
     h.encoded(QR.create_quadrature_rule_on_triangle, QR.create_quadrature_rule_1D)
     h.bounds('triangle rules requested with degree 0..10, 1-D rules degree 0..25; tolerance %g ulp of sum_q |w_q| (1/2 resp. 1)' % ULPS)
@@ -295,6 +298,64 @@ def box(*arrs):
         for x in flat(a):
             out += [v_le(-BOX, x), v_le(x, BOX)]
     return out
+
+
+def pos(*dets):
+    """the only geometric hypothesis of the exact identities: positively oriented, non-degenerate element(s) -- NO lower bound on
+    the area and NO box on the coordinates (arbitrary shapes AND sizes: tiny elements, slivers, huge coordinates)"""
+    return [v_lt(0.0, d) for d in dets]
+
+
+def _ite_conds(fs, limit):
+    import z3
+    seen, conds, stack = set(), {}, list(fs)
+    while stack:
+        t = stack.pop()
+        if t.get_id() in seen:
+            continue
+        seen.add(t.get_id())
+        if z3.is_app(t):
+            if t.decl().kind() == z3.Z3_OP_ITE and not z3.is_bool(t):
+                conds.setdefault(t.arg(0).get_id(), t.arg(0))
+                if len(conds) > limit:
+                    return None
+            stack.extend(t.children())
+    return list(conds.values())
+
+
+def install_case_split():
+    """robustness against `select`s in the code under test (e.g. a guard on det J): when the query contains at most 3 distinct
+    if-then-else conditions, decide it by exhaustive case split on them (each case: condition asserted and substituted, so the
+    case is ite-free); all cases unsat = unsat, any case sat = sat (the model satisfies the asserted condition), else unknown.
+    Process-local (every obligation runs in its own worker)."""
+    import itertools
+    import time
+    import z3
+    from .. import sym
+    if getattr(sym.solve, '_c03_split', False):
+        return
+    plain = sym.solve
+
+    def solve(assertions, cap_s, order=('core', 'nlsat')):
+        assertions = [a for a in assertions]
+        conds = _ite_conds(assertions, 3)
+        if not conds:
+            return plain(assertions, cap_s, order)
+        t0, attempts, unknown = time.time(), [], False
+        cases = list(itertools.product([True, False], repeat=len(conds)))
+        for n, vals in enumerate(cases):
+            sub = [(c, z3.BoolVal(v)) for c, v in zip(conds, vals)]
+            lits = [c if v else z3.Not(c) for c, v in zip(conds, vals)]
+            asg = [z3.simplify(z3.substitute(a, *sub)) for a in assertions] + lits
+            left = max(1.0, (cap_s - (time.time() - t0)) / (len(cases) - n))
+            st, m, sv, dt, att = plain(asg, left, order)
+            attempts += [('case%s:%s' % (''.join('TF'[not v] for v in vals), k), r, d) for k, r, d in att]
+            if st == 'sat':
+                return 'sat', m, sv, time.time() - t0, attempts
+            unknown = unknown or st != 'unsat'
+        return ('unknown' if unknown else 'unsat'), None, ('split' if not unknown else None), time.time() - t0, attempts
+    solve._c03_split = True
+    sym.solve = solve
 
 
 def geom(X, ids):
@@ -359,6 +420,7 @@ def o4(h):
     """A1: FunctionSpace.map_element_shape_grads(coords, conn, parent, dN) = J^{-T} dN with J = [v0-v2 | v1-v2] built
     from the element's three vertex nodes (Cramer oracle), for SYMBOLIC reference gradients dN and symbolic coordinates
     of every node of the element"""
+    install_case_split()
     FS, I, QR, M, S = _mods()
     h.encoded(FS.map_element_shape_grads)
     h.bounds('all node coordinates free in [-%g,%g]^2, det J >= %g (signed area >= 1/100); reference gradients dN: all reals (2 quadrature points for P1, '
@@ -385,7 +447,7 @@ def o4(h):
                     r0, r1 = cramer(J, dN[q, a, 0], dN[q, a, 1])
                     lhs += [v_mul(g[q, a, 0], det), v_mul(g[q, a, 1], det)]
                     rhs += [r0, r1]
-            return box(X) + [v_le(DET_MIN, det)], [Eq(lhs, rhs, name='g_times_detJ_eq_adjJT_dN')]
+            return pos(det), [Eq(lhs, rhs, name='g_times_detJ_eq_adjJT_dN')]
         c.prove('A1[%s]' % label, spec, cap=40)
 
 
@@ -395,6 +457,7 @@ def o5(h):
     """A2: compute_element_volumes = det(J) w_q (symbolic weights) and, with every real rule, sum_q vols = area up to
     the ground weight-sum defect. A3: compute_element_volumes_axisymmetric = (2 pi as binary64) * r_q * det(J) * w_q
     with r_q = sum_a N_a(q) x_a (symbolic shapes and weights), and r_q the affine image with the real P1 tables"""
+    install_case_split()
     FS, I, QR, M, S = _mods()
     h.encoded(FS.compute_element_volumes, FS.compute_element_volumes_axisymmetric, QR.create_quadrature_rule_on_triangle, I.compute_shapes)
     h.bounds('all node coordinates free in [-%g,%g]^2, det J >= %g; weights and shape values: all reals (3 points) or the real tables of the six triangle rules; '
@@ -415,7 +478,7 @@ def o5(h):
 
         def spec(i, o, ids=ids):
             v, J, det = geom(i['X'], ids)
-            return box(i['X']) + [v_le(DET_MIN, det)], [Eq([o[q] for q in range(nq)], [v_mul(det, i['w'][q]) for q in range(nq)], name='vols_eq_detJ_w')]
+            return [], [Eq([o[q] for q in range(nq)], [v_mul(det, i['w'][q]) for q in range(nq)], name='vols_eq_detJ_w')]
         c.prove('A2[%s]' % label, spec, cap=30)
 
         # real weights: sum of the quadrature volumes is the element area
@@ -427,7 +490,7 @@ def o5(h):
         def spec_sum(i, o, ids=ids):
             v, J, det = geom(i['X'], ids)
             area = v_mul(0.5, det)
-            return box(i['X']) + [v_le(DET_MIN, det)], [
+            return pos(det), [
                 Le(v_abs(v_sub(s0(o[k]), area)), v_mul(TOL_W, det), name='sum_vols_eq_area[rule%d]' % d, scale=SC) for k, d in enumerate(TRI_RULE_DEGREES)]
         c.prove('A2sum[%s]' % label, spec_sum, cap=30)
 
@@ -444,7 +507,7 @@ def o5(h):
             for q in range(nq):
                 r = v_sum([v_mul(N[q, a], X[conn[a]][0]) for a in range(nn)])
                 rhs.append(v_mul(TWO_PI, v_mul(r, v_mul(det, w[q]))))
-            return box(X) + [v_le(DET_MIN, det)], [Eq([o[q] for q in range(nq)], rhs, name='vols_eq_2pi_r_detJ_w')]
+            return [], [Eq([o[q] for q in range(nq)], rhs, name='vols_eq_2pi_r_detJ_w')]
         c.prove('A3[%s]' % label, spec_ax, cap=30)
 
     # A3 with the real P1 tables: r_q is the radius of the affine image of xi_q
@@ -467,7 +530,7 @@ def o5(h):
                     r = affine_point(v, J, xi[q])[0]
                     lhs.append(v_sub(o[q], v_mul(F(TWO_PI) * F(wq[q]), v_mul(r, det))))
                     tol.append(v_mul(F(TWO_PI) * F(wq[q]) * F(TOL_X), det))
-                return box(X) + [v_le(DET_MIN, det)], [Le([v_abs(x) for x in lhs], tol, name='vols_eq_2pi_r(xi_q)_detJ_w', scale=SC)]
+                return box(X) + pos(det), [Le([v_abs(x) for x in lhs], tol, name='vols_eq_2pi_r(xi_q)_detJ_w', scale=SC)]
             c.prove('A3real[P1 %d%d%d,rule%d]' % (tuple(conn) + (d,)), spec_axr, cap=80, order=('core', 'nlsat'))
 
 
@@ -493,6 +556,7 @@ def o6(h):
     create_higher_order_mesh_from_simplex_mesh the nodes are the affine images of the parent nodes, the points stay
     affine and |sum_a x_a (x) dN_a(xi_q) - J| is below the ground defect; the code's gradient G of the coordinate
     field satisfies G J = sum_a x_a (x) dN_a exactly for ALL reference gradients dN (so G = identity)"""
+    install_case_split()
     FS, I, QR, M, S = _mods()
     h.encoded(FS.interpolate_to_element_points, FS.interpolate_to_point, FS.interpolate_to_points, FS.compute_field_gradient, FS.compute_element_field_gradient,
               FS.compute_quadrature_point_field_gradient, FS.construct_function_space_from_parent_element, FS.map_element_shape_grads,
@@ -588,7 +652,7 @@ def o6(h):
                     for cc in range(2):
                         l.append(v_add(v_mul(G[0, rr, 0], J[0][cc]), v_mul(G[0, rr, 1], J[1][cc])))
                         r.append(v_sum([v_mul(dN[0, a, cc], XH[econn[a]][rr]) for a in range(nn)]))
-                return box(i['X']) + [v_le(DET_MIN, det)], [Eq(l, r, name='gradX_times_J_eq_sum_x_dN')]
+                return pos(det), [Eq(l, r, name='gradX_times_J_eq_sum_x_dN')]
             c.prove('A4grad[%s]' % lab, specg, cap=40)
 
     # two elements sharing an edge (the right-hand element receives the shared edge nodes in reverse order): every node of
@@ -659,6 +723,7 @@ def o7(h):
     on a triangle (real get_edge_coords/faceNodes): outward for counter-clockwise elements, the three normal*jac sum
     to zero; FunctionSpace.integrate_function_on_edge(s): flux of a constant field through the closed boundary is 0,
     per-edge integral of n is (sum of 1-D weights) * normal*jac, edge quadrature points are affine"""
+    install_case_split()
     FS, I, QR, M, S = _mods()
     h.encoded(M.compute_edge_vectors, M.get_edge_coords, M.get_edge_field, M.get_edge_node_indices, FS.integrate_function_on_edge, FS.integrate_function_on_edges,
               FS.interpolate_nodal_field_on_edge, FS.get_nodal_values_on_edge, I.compute_shapes, I.shape1d, QR.create_quadrature_rule_1D)
@@ -680,7 +745,7 @@ def o7(h):
             E = i['E']
             t, n, j = o[0], o[1], s0(o[2])
             T = [v_sub(E[vn[1]][0], E[vn[0]][0]), v_sub(E[vn[1]][1], E[vn[0]][1])]
-            return box(E) + [v_lt(0.0, v_add(v_mul(T[0], T[0]), v_mul(T[1], T[1])))], unit_atoms(t, n, j, T, '')
+            return [v_lt(0.0, v_add(v_mul(T[0], T[0]), v_mul(T[1], T[1])))], unit_atoms(t, n, j, T, '')
         c.prove('A5edge[line P%d]' % order, spec, cap=30, denoms=False, order=('nlsat', 'core'))
 
     # (b) triangle level
@@ -708,7 +773,7 @@ def o7(h):
                 Nx.append(v_mul(n[0], j))
                 Ny.append(v_mul(n[1], j))
             atoms.append(Eq([v_sum(Nx), v_sum(Ny)], 0.0, name='sum_of_normal_times_jac_is_zero'))
-            return box(i['X']) + [v_le(DET_MIN, det)], atoms
+            return pos(det), atoms
         c.prove('A5tri[%s]' % label, spec, cap=60, denoms=False, order=('nlsat', 'core'))
 
     # (c) the real edge integrator on a closed triangle boundary: exact identities with the exact 1-D table constants
@@ -738,7 +803,7 @@ def o7(h):
 
             def spec_tot(i, o, ids=ids):
                 v, J, det = geom(i['X'], ids)
-                return box(i['X'], i['c']) + [v_le(DET_MIN, det)], [Eq(s0(o), 0.0, name='flux_of_constant_field_through_closed_boundary_is_zero')]
+                return pos(det), [Eq(s0(o), 0.0, name='flux_of_constant_field_through_closed_boundary_is_zero')]
             c.prove('A5int[%s,rule1d=%d]' % (label, d1), spec_tot, cap=60, denoms=False, order=('nlsat', 'core'))
 
             for k in range(3):
@@ -755,7 +820,7 @@ def o7(h):
                     v, J, det = geom(i['X'], ids)
                     a, b, cc, T = edge_oracle(v, k)
                     N = [T[1], v_sub(0.0, T[0])]
-                    return box(i['X'], cv) + [v_le(DET_MIN, det)], [
+                    return pos(det), [
                         Eq([s0(per[0]), s0(per[1])], [v_mul(W, N[0]), v_mul(W, N[1])], name='edge_integral_of_n_eq_W_normal_times_jac'),
                         Eq(s0(flux), v_mul(K, v_add(v_mul(cv[0], N[0]), v_mul(cv[1], N[1]))), name='edge_flux_of_constant_eq_K_c.normal_times_jac')]
                 c.prove('A5int[%s,rule1d=%d,edge%d]' % (label, d1, k), spec_k, cap=40, denoms=False, order=('nlsat', 'core'))
@@ -827,6 +892,7 @@ def o8(h):
     of ANY nodal field with ANY reference gradients satisfies G J_e = sum_a u_a (x) dN_a; integrate_over_block of
     1, x and x*y equals the closed-form polygon integrals (x, x*y: exactly, through the exact first moments / mass matrix of the real tables,
     which are ground facts)"""
+    install_case_split()
     FS, I, QR, M, S = _mods()
     h.encoded(FS.construct_function_space, FS.construct_function_space_from_parent_element, FS.map_element_shape_grads, FS.compute_element_volumes,
               FS.compute_element_volumes_axisymmetric, FS.compute_field_gradient, FS.compute_element_field_gradient, FS.compute_quadrature_point_field_gradient, FS.integrate_over_block, FS.evaluate_on_block,
@@ -870,7 +936,7 @@ def o8(h):
                         gr += [dNt[q][a][0], dNt[q][a][1]]
                 gatoms.append(Eq(gl, gr, name='JT_shapeGrads_eq_dN[el%d]' % e))
             area2 = shoelace2(X)
-            return box(X) + [v_le(DET_MIN, els[0][2]), v_le(DET_MIN, els[1][2])], [
+            return pos(els[0][2], els[1][2]), [
                 Eq(sl, sr, name='shapes_are_the_reference_table'),
                 *gatoms,
                 Eq(vl, vr, name='vols_eq_detJ_w'),
@@ -882,23 +948,26 @@ def o8(h):
             return FS.construct_function_space_from_parent_element(M.mesh_with_coords(base, X), sh, qr, 'axisymmetric').vols
         c = Case(h, fa, dict(X=ex[0]), sampler=smp, label='construct_function_space_from_parent_element axisymmetric rule%d' % d)
 
-        def spec_a(i, o, Nt=Nt, wq=wq, nq=nq):
+        def spec_a(i, o, Nt=Nt, wq=wq, nq=nq, which='exact'):
             X = i['X']
             els = two_el(X)
-            vl, vr, atoms = [], [], []
-            for e, (v, J, det) in enumerate(els):
-                for q in range(nq):
-                    r = v_sum([v_mul(Nt[q][a], v[a][0]) for a in range(3)])
-                    vl.append(o[e, q])
-                    vr.append(v_mul(F(TWO_PI) * F(wq[q]), v_mul(r, det)))   # exact rational product of the two binary64 constants
-            atoms.append(Eq(vl, vr, name='vols_eq_2pi_r_detJ_w'))
+            if which == 'exact':      # no hypothesis at all: holds for every real coordinate set
+                vl, vr = [], []
+                for e, (v, J, det) in enumerate(els):
+                    for q in range(nq):
+                        r = v_sum([v_mul(Nt[q][a], v[a][0]) for a in range(3)])
+                        vl.append(o[e, q])
+                        vr.append(v_mul(F(TWO_PI) * F(wq[q]), v_mul(r, det)))   # exact rational product of the two binary64 constants
+                return [], [Eq(vl, vr, name='vols_eq_2pi_r_detJ_w')]
+            atoms = []
             for e, (v, J, det) in enumerate(els):
                 rc = v_mul(1.0 / 3.0, v_sum([v[0][0], v[1][0], v[2][0]]))
                 pappus = v_mul(F(TWO_PI) / 2, v_mul(rc, det))
                 atoms.append(Le(v_abs(v_sub(v_sum([o[e, q] for q in range(nq)]), pappus)), v_mul(TWO_PI * TOL_X, det),
                                 name='element_volume_eq_2pi_area_centroid_radius[el%d]' % e, scale=SC))
-            return box(X) + [v_le(DET_MIN, els[0][2]), v_le(DET_MIN, els[1][2])], atoms
+            return box(X) + pos(els[0][2], els[1][2]), atoms      # absolute table-defect tolerance: stated at box scale
         c.prove('FS2[axisymmetric,rule%d]' % d, spec_a, cap=40)
+        c.prove('FS2[axisymmetric,rule%d]' % d, lambda i, o, spec_a=spec_a: spec_a(i, o, which='pappus'), cap=40)
 
         # mesh integrals through the real integrate_over_block
         state = jnp.zeros((2, nq, 0))
@@ -940,7 +1009,7 @@ def o8(h):
                      Eq(s0(o[1]), v_sum(exact['x']), name='integral_of_x_eq_sum_detJ_c.x_with_exact_table_first_moments')]
             if len(kernels) > 2:
                 atoms.append(Eq(s0(o[2]), v_sum(exact['xy']), name='integral_of_xy_eq_sum_detJ_x.M.y_with_exact_table_mass_matrix'))
-            return box(X) + [v_le(DET_MIN, els[0][2]), v_le(DET_MIN, els[1][2])], atoms
+            return pos(els[0][2], els[1][2]), atoms
         c.prove('FS2int[rule%d]' % d, spec_i, cap=60, order=('nlsat', 'core'))
 
     # gradient of any nodal field, any reference gradients
@@ -963,7 +1032,7 @@ def o8(h):
                 for cc in range(2):
                     l.append(v_add(v_mul(o[e, 0, rr, 0], J[0][cc]), v_mul(o[e, 0, rr, 1], J[1][cc])))
                     r.append(v_sum([v_mul(dN[0, a, cc], U[TWO_EL_CONNS[e][a]][rr]) for a in range(3)]))
-        return box(X) + [v_le(DET_MIN, els[0][2]), v_le(DET_MIN, els[1][2])], [Eq(l, r, name='gradU_times_J_eq_sum_u_dN')]
+        return pos(els[0][2], els[1][2]), [Eq(l, r, name='gradU_times_J_eq_sum_u_dN')]
     c.prove('FS2grad', spec_g, cap=40)
 
 
@@ -982,7 +1051,7 @@ def closed_boundary_chain(h, name, W, conn):
     for k in range(3):
         a, b, cc, T = edge_oracle(v, k)
         lem.append(Ik[k] == toz(W) * (cv[0] * T[1] - cv[1] * T[0]))
-    h.prove(name, lem + box(X, cv), Eq(t, 0.0), inputs=dict(X=X, c=cv), concrete=None, cap=20,
+    h.prove(name, lem, Eq(t, 0.0), inputs=dict(X=X, c=cv), concrete=None, cap=20,
             note='chain: lemmas surface_integral_is_sum_of_edge_integrals and edge_flux_of_constant_eq_W_c.normal_times_jac[edge0..2] of the same case')
 
 
@@ -993,6 +1062,7 @@ def o9(h):
     n over an edge = W * normal*jac, of x = jac * (W a + S (b-a)) with the exact 1-D table constants W = sum w_q,
     S = sum w_q s_q, flux of a constant field through the closed triangle boundary = 0; integrate_values /
     integrate_function: jac * sum_q w_q f_q"""
+    install_case_split()
     FS, I, QR, M, S = _mods()
     h.encoded(S.compute_normal, S.compute_edge_vectors, S.get_coords, S.integrate_function_on_edge, S.integrate_function_on_surface, S.integrate_values,
               S.integrate_function, QR.create_quadrature_rule_1D)
@@ -1007,7 +1077,7 @@ def o9(h):
         E = i['E']
         (t, n, j), n2 = o
         T = [v_sub(E[1][0], E[0][0]), v_sub(E[1][1], E[0][1])]
-        return box(E) + [v_lt(0.0, v_add(v_mul(T[0], T[0]), v_mul(T[1], T[1])))], unit_atoms(t, n, s0(j), T, '') + [
+        return [v_lt(0.0, v_add(v_mul(T[0], T[0]), v_mul(T[1], T[1])))], unit_atoms(t, n, s0(j), T, '') + [
             Eq([n2[0], n2[1]], [n[0], n[1]], name='compute_normal_eq_edge_vectors_normal')]
     c.prove('A5surf[edge]', spec, cap=30, denoms=False, order=('nlsat', 'core'))
 
@@ -1039,7 +1109,7 @@ def o9(h):
                 for k in range(3):
                     a, b, cc, T = edge_oracle(v, k)
                     atoms.append(Eq(s0(Ik[k]), v_mul(W, v_sub(v_mul(cv[0], T[1]), v_mul(cv[1], T[0]))), name='edge_flux_of_constant_eq_W_c.normal_times_jac[edge%d]' % k))
-                return box(i['X'], cv) + [v_le(DET_MIN, det)], atoms
+                return pos(det), atoms
             c.prove('A5surf[%d%d%d,rule1d=%d]' % (tuple(conn) + (d1,)), spec_tot, cap=40, denoms=False, order=('nlsat', 'core'))
             closed_boundary_chain(h, 'A5surf[%d%d%d,rule1d=%d].flux_of_constant_field_through_closed_boundary_is_zero' % (tuple(conn) + (d1,)), W, conn)
 
@@ -1057,7 +1127,7 @@ def o9(h):
                     j = s0(j)
                     v, J, det = geom(i['X'], conn)
                     a, b, cc, T = edge_oracle(v, k)
-                    return box(i['X']) + [v_le(DET_MIN, det)], [
+                    return pos(det), [
                         Eq([ec[0][0], ec[0][1], ec[1][0], ec[1][1]], [a[0], a[1], b[0], b[1]], name='get_coords_is_vertex_k_to_k+1'),
                         Eq([s0(In[0]), s0(In[1])], [v_mul(W, T[1]), v_mul(W, v_sub(0.0, T[0]))], name='edge_integral_of_n_eq_W_normal_times_jac'),
                         Eq([s0(Ix[r]) for r in range(2)], [v_mul(j, v_add(v_mul(W, a[r]), v_mul(Sm, T[r]))) for r in range(2)], name='edge_integral_of_x_eq_jac_(W_a+S_T)')]
@@ -1073,7 +1143,7 @@ def o9(h):
             E, f = i['E'], i['f']
             T = [v_sub(E[1][0], E[0][0]), v_sub(E[1][1], E[0][1])]
             j = s0(o[2])
-            return box(E) + [v_lt(0.0, v_add(v_mul(T[0], T[0]), v_mul(T[1], T[1])))], [
+            return [v_lt(0.0, v_add(v_mul(T[0], T[0]), v_mul(T[1], T[1])))], [
                 Eq(s0(o[0]), v_mul(j, v_sum([v_mul(w[q], f[q]) for q in range(nq)])), name='integrate_values_eq_jac_sum_w_f'),
                 Eq(s0(o[1]), v_mul(j, v_add(v_mul(W, E[0][0]), v_mul(Sm, T[0]))), name='integrate_function_x_eq_jac_(W_a+S_T)')]
         c.prove('A5surf[values,rule1d=%d]' % d1, spec_v, cap=40, denoms=False, order=('nlsat', 'core'))
